@@ -11,6 +11,7 @@ EXPLANATION = (
     "most one slot and return immediately. R14-siblings: write_to_bucket/has_in_bucket/remove_from_bucket scan the same slot "
     "range i*bucketsize .. i*bucketsize+bucketsize and compare/write at the scanned slot. R14-first-insert: the first action of "
     "insert_internal is an unconditional placement attempt in bucket i1 that yields Ok on success."
+    " R14-full-scan: a bucket helper returns false only after the iterator over the bucket is exhausted (loop form) or is an `any` over the whole range. C12's restore rules are applied to the cuckoo filter."
 )
 NOT_DECIDED = "exact multiset behaviour through arbitrary eviction chains for every RNG outcome (needs reachability facts about table contents)"
 ASSUMPTIONS = ["IntVec::get/IntVecMut::set read/write exactly the addressed element", "payload constants of Result::Ok aggregates are literal booleans"]
